@@ -9,3 +9,6 @@ import (
 func nutsOpen(in *core.Inst) (*nutsdb.DB, error) {
 	return nutsdb.Open(in.Cfg.Options(in.Dir))
 }
+
+// NutsOpen opens the database of an instance's directory with its configuration.
+func NutsOpen(in *core.Inst) (*nutsdb.DB, error) { return nutsOpen(in) }
